@@ -142,6 +142,10 @@ func (s e3Shape) render() map[string]string {
 	}
 	// a task whose dir: does not exist yet (read-only modes must not create it)
 	b.WriteString("  withdir:\n    dir: newdir/sub\n    cmds:\n      - cmd: " + yamlq(`printf 'withdir c1\n' >> "$VERIF_TRACE"`) + "\n")
+	// a task with sources whose sub-call can be made to fail a precondition (read-only modes must not touch its state)
+	b.WriteString("  prefail:\n    preconditions: ['test -f pre.ok']\n    cmds:\n      - cmd: " + yamlq(`printf 'prefail c1\n' >> "$VERIF_TRACE"`) + "\n")
+	b.WriteString(strings.Replace(taskBody("withsub", false), "generates: ['out/gen.txt']\n", "", 1))
+	b.WriteString("    cmds:\n      - cmd: " + yamlq(`printf 'withsub c1\n' >> "$VERIF_TRACE"`) + "\n      - task: prefail\n")
 	// a parent that runs the task under test next to a failing sibling
 	b.WriteString("  sibling:\n    cmds:\n      - cmd: " + yamlq(`i=0; while [ ! -f spin.started ] && [ $i -lt 30000 ]; do i=$((i+1)); done; exit 1`) + "\n")
 	fmt.Fprintf(&b, "  parent:\n    deps: ['%s', sibling]\n", s.TaskName)
@@ -504,8 +508,15 @@ func (st *e3State) step(op e3Op, rng *rand.Rand, part *h.Partial) []e3Verdict {
 		part.Count("file_ops", 1)
 
 	// ---- read-only invocations -------------------------------------------------
-	case "run-dry", "run-status", "list-json", "list-all-json", "list", "list-all", "summary", "dry-withdir", "summary-withdir", "dry-parent":
+	case "setup-withsub":
+		os.WriteFile(filepath.Join(st.dir, "pre.ok"), nil, 0o644)
+		r, _ := st.invoke(e3Inv{args: []string{"withsub"}})
+		rec.Exit = r.Exit
+		os.Remove(filepath.Join(st.dir, "pre.ok"))
+	case "run-dry", "run-status", "list-json", "list-all-json", "list", "list-all", "summary", "dry-withdir", "summary-withdir", "dry-parent", "dry-withsub", "status-withsub":
 		args := map[string][]string{
+			"dry-withsub":     {"--dry", "withsub"},
+			"status-withsub":  {"--status", "withsub"},
 			"dry-withdir":     {"--dry", "withdir"},
 			"summary-withdir": {"--summary", "withdir"},
 			"dry-parent":      {"--dry", "parent"},
@@ -559,13 +570,22 @@ func (st *e3State) step(op e3Op, rng *rand.Rand, part *h.Partial) []e3Verdict {
 		}
 
 	// ---- plain invocations of the task under test ------------------------------
-	case "run", "run-fail", "run-force", "run-yes", "kill", "run-cancel":
+	case "run", "run-fail", "run-force", "run-force-fail", "run-yes", "kill", "run-cancel":
 		inv := e3Inv{args: []string{sh.TaskName}, plain: true}
 		failFlag := ""
 		switch op.Kind {
 		case "run-fail":
 			failFlag = fmt.Sprintf("fail%d.flag", op.K)
 			os.WriteFile(filepath.Join(st.dir, failFlag), nil, 0o644)
+			if sh.Prompt {
+				inv.args = append(inv.args, "--yes")
+				inv.yes = true
+			}
+		case "run-force-fail":
+			failFlag = fmt.Sprintf("fail%d.flag", op.K)
+			os.WriteFile(filepath.Join(st.dir, failFlag), nil, 0o644)
+			inv.args = append(inv.args, "--force")
+			inv.force = true
 			if sh.Prompt {
 				inv.args = append(inv.args, "--yes")
 				inv.yes = true
@@ -865,7 +885,7 @@ func (st *e3State) witness(v e3Verdict, seedInfo any) map[string]string {
 }
 
 var e3FileOps = []string{"edit", "edit", "touch", "touch", "add", "remove", "rename", "move", "edit-unmatched", "del-gen", "status-off", "status-on"}
-var e3ROOps = []string{"run-dry", "run-status", "list-json", "list-all-json", "list", "list-all", "summary", "dry-withdir", "summary-withdir", "dry-parent"}
+var e3ROOps = []string{"run-dry", "run-status", "list-json", "list-all-json", "list", "list-all", "summary", "dry-withdir", "summary-withdir", "dry-parent", "dry-withsub", "status-withsub"}
 
 func e3RandomHistory(rng *rand.Rand, s e3Shape, prop string, n int) []e3Op {
 	var ops []e3Op
@@ -887,7 +907,9 @@ func e3RandomHistory(rng *rand.Rand, s e3Shape, prop string, n int) []e3Op {
 		case r < pFile+pRO:
 			ops = append(ops, e3Op{Kind: e3ROOps[rng.Intn(len(e3ROOps))]})
 		case r < pFile+pRO+pBad:
-			switch rng.Intn(5) {
+			switch rng.Intn(6) {
+			case 5:
+				ops = append(ops, e3Op{Kind: "run-force-fail", K: 1 + rng.Intn(s.NCmds)})
 			case 0:
 				ops = append(ops, e3Op{Kind: "run-fail", K: 1 + rng.Intn(s.NCmds)})
 			case 1:
@@ -968,6 +990,12 @@ func runE3(id string, start time.Time) int {
 							}
 						}
 						for k := 1; k <= n; k++ {
+							jobs = append(jobs, job{s, []e3Op{{Kind: "run"}, {Kind: "run-force-fail", K: k}, {Kind: "run"}, {Kind: "run"}}, "fail-enum", i})
+							i++
+							if gen {
+								jobs = append(jobs, job{s, []e3Op{{Kind: "run"}, {Kind: "del-gen"}, {Kind: "run-fail", K: k}, {Kind: "run"}, {Kind: "run"}}, "fail-enum", i})
+								i++
+							}
 							ops := []e3Op{{Kind: "run-fail", K: k}, {Kind: "run"}, {Kind: "run"}}
 							jobs = append(jobs, job{s, ops, "fail-enum", i})
 							i++
@@ -1006,6 +1034,14 @@ func runE3(id string, start time.Time) int {
 	case "C12":
 		// every read-only mode at every position of a fixed skeleton, for both methods and all shapes
 		i := 0
+		for _, method := range []string{"checksum", "timestamp"} {
+			for _, ro := range []string{"dry-withsub", "status-withsub", "list-all-json", "summary"} {
+				s := e3Shape{Method: method, Glob: 0, Shape: "plain", NCmds: 2}
+				s.fixNames()
+				jobs = append(jobs, job{s, []e3Op{{Kind: "setup-withsub"}, {Kind: "edit"}, {Kind: ro}, {Kind: "run"}, {Kind: "edit"}, {Kind: ro}, {Kind: "run"}}, "ro-failing-subcall", i})
+				i++
+			}
+		}
 		skeleton := []e3Op{{Kind: "run"}, {Kind: "edit"}, {Kind: "run-fail", K: 1}, {Kind: "run"}, {Kind: "edit"}, {Kind: "run"}}
 		for _, method := range []string{"checksum", "timestamp"} {
 			for _, shape := range []string{"plain", "deps", "label", "ns"} {
